@@ -4,8 +4,23 @@ scripted layout sequences.  stdin: JSON list of cases, stdout: JSON list of resu
 case = {"term": "kitty"|"konsole"|"other", "ksup": bool, "size": [cols, rows], "z_start": int|None,
         "slots": {name: spec}, "steps": [step, ...]}
 spec = {"kind": "kitty"|"iterm2"|"block", "img": int, "upscale": bool,
-        "cls": 0 (UrwidImage) | 1 (a subclass) | 2 (a subclass of that subclass) | 3 (another subclass)}
-step = {"op": "draw", "layout": L} | {"op": "redraw"} | {"op": "draw_bad", "layout": L}
+        "cls": 0 (UrwidImage) | 1 (a subclass) | 2 (a subclass of that subclass) | 3 (another subclass),
+        "fmt": str}       the widget's format specifier (default ""): alignments, alpha, and the style-specific
+                          fields of the image's render style (kitty: L|W, z<n>, m0|1, c<0-9>; iterm2: L|W, m0|1, c<0-9>)
+step = {"op": "draw", "layout": L [, "save": name]}      the canvas OBJECT drawn is kept under `name`
+     | {"op": "redraw" [, "use": name]}                  draw_screen() of a canvas object drawn before: the one kept
+                                                         under `name`, or the one handed to draw_screen() last
+     | {"op": "draw_bad", "layout": L [, "how": H]}      a redraw in which the base class' draw_screen raises:
+                                                         H = "size" (default: wrong number of rows, raises at once)
+                                                           | ["content", k] (the canvas' content() raises at row k:
+                                                             nothing is written)
+                                                           | ["write", k] (the k-th write() of the BASE class'
+                                                             draw_screen raises OSError: part of its output is
+                                                             written)
+     | {"op": "winch"}                                   a real SIGWINCH (signal.raise_signal) while the screen is
+                                                         started: urwid does not draw until the resize is handled
+     | {"op": "resize"}                                  the main loop handles the resize: screen.get_input()
+                                                         reports 'window resize' (the size is unchanged)
      | {"op": "clear"} | {"op": "stop"}
      | {"op": "start", "alt": bool}       screen.start(alternate_buffer=alt) (default True); without the
                                           alternate buffer (urwid's inline mode) every canvas drawn carries a
@@ -34,6 +49,9 @@ the disguise states, the rows of canvas.content() (ground truth), the z-indexes 
 widgets, newly allocated / freed z-indexes, and the exception if one escaped."""
 import gc
 import io
+import os
+import pty
+import signal
 import sys
 import warnings
 import weakref
@@ -57,6 +75,64 @@ _urwid_mod.write_tty = TTY.write
 
 urwid.set_encoding("utf-8")
 tests.set_cell_size((2, 4))
+
+# the screen's input: a pty on which no key ever arrives, so that get_input() can be used to handle a
+# resize the way urwid.MainLoop does
+_PTY_MASTER, _PTY_SLAVE = pty.openpty()
+TTY_IN = os.fdopen(_PTY_SLAVE, "r")
+
+
+class FailingIO(io.StringIO):
+    """the screen's output buffer; the `fail_at`-th write() from now on raises OSError (once).
+    `arm`: the count to start when the BASE class' draw_screen is entered (see _armed_draw)"""
+
+    fail_at = None
+    arm = None
+
+    def write(self, data):
+        if self.fail_at is not None:
+            self.fail_at -= 1
+            if self.fail_at <= 0:
+                self.fail_at = None
+                raise OSError(5, "Input/output error")
+        return super().write(data)
+
+
+class RaisingCanvas(urwid.CompositeCanvas):
+    """a canvas whose content() raises when it reaches row `_verif_fail_row` (a widget whose canvas
+    fails part-way); `_verif_fail_row = None`: behaves normally"""
+
+    _verif_fail_row = None
+
+    def content(self, *args, **kwargs):
+        for i, row in enumerate(super().content(*args, **kwargs)):
+            if self._verif_fail_row is not None and i >= self._verif_fail_row:
+                raise RuntimeError("content() failed")
+            yield row
+
+
+_base_draw_screen = urwid.raw_display.Screen.draw_screen
+
+
+def _armed_draw(self, size, canvas):
+    """the base class' draw_screen; a write failure that was asked for strikes one of ITS writes"""
+    buf = self._term_output_file
+    if getattr(buf, "arm", None) is not None:
+        buf.fail_at, buf.arm = buf.arm, None
+    try:
+        return _base_draw_screen(self, size, canvas)
+    finally:
+        if hasattr(buf, "fail_at"):
+            buf.fail_at = None      # it made fewer writes: no failure
+
+
+urwid.raw_display.Screen.draw_screen = _armed_draw
+
+
+def new_screen(buf):
+    screen = UrwidImageScreen(TTY_IN, buf)
+    screen.set_input_timeouts(max_wait=0)
+    return screen
 
 
 class WithCursor(urwid.WidgetDecoration):
@@ -116,14 +192,16 @@ class Case:
         Other = type("Other", (UrwidImage,), {})
         self.classes = [UrwidImage, Sub, SubSub, Other]
         self.size = tuple(case["size"])
-        self.buf = io.StringIO()
-        self.screen = UrwidImageScreen(sys.__stdin__, self.buf)
+        self.buf = FailingIO()
+        self.screen = new_screen(self.buf)
         self.slots = {}
+        self.widgets = weakref.WeakSet()
         self.serial = 0
         self.wids = {}      # id(widget) -> serial   (widgets kept alive only through self.slots / urwid)
         self.canv_ids = {}  # id(canvas) -> (number, weakref)
         self.canv_count = 0
         self.last_canvas = None
+        self.kept = {}         # name -> (canvas object, rendered for the inline mode)
         self.known_live = {}   # serial -> z   as of the last step
         self.inline = False    # the current session was started without the alternate buffer
 
@@ -154,7 +232,10 @@ class Case:
         w = wcls(cls(img), spec.get("fmt", ""), upscale=bool(spec.get("upscale", True)))
         self.serial += 1
         w._verif_serial = self.serial
+        self.widgets.add(w)
         w._verif_kind = spec["kind"]
+        # the WHOLE render method: one placement for the whole image on its first line
+        w._verif_whole = spec["kind"] != "block" and "W" in spec.get("fmt", "").partition("+")[2]
         return w
 
     def build(self, L):
@@ -232,6 +313,12 @@ class Case:
                     "cols": canv.cols(), "rows": canv.rows()}
         bands, shards = [], []
         shard_tail = []
+        for _n, cviews in canv.shards:
+            for cv in cviews:
+                if isinstance(cv[5], UrwidImageCanvas) and isinstance(cv[5].widget_info, tuple):
+                    if getattr(cv[5].widget_info[0], "_verif_whole", False) and (
+                            cv[0] or cv[1] or cv[2] != cv[5].cols() or cv[3] != cv[5].rows()):
+                        self.whole_trimmed = True
         for num_rows, cviews in canv.shards:
             sbody = ucanvas.shard_body(cviews, shard_tail, False)
             cells = []
@@ -246,7 +333,8 @@ class Case:
         return {"composite": True, "id": self.canv_ref(canv)["id"], "bands": bands, "shards": shards}
 
     def live_widgets(self):
-        return [o for o in gc.get_objects() if isinstance(o, UrwidImage) and hasattr(o, "_verif_serial")]
+        # every widget of the session was registered at construction (weakly: the set does not keep it alive)
+        return [o for o in list(self.widgets) if hasattr(o, "_verif_serial")]
 
     def observe(self, res):
         gc.collect()
@@ -262,6 +350,7 @@ class Case:
         res["cviews"] = sorted(
             [self.canv_ref(cv[0])["id"], *cv[1:]] for cv in self.screen._ti_image_cviews
         )
+        res["resized"] = bool(self.screen._resized)
         res["cdis"] = UrwidImageCanvas._ti_disguise_state
         res["wdis"] = sorted([s, w._ti_disguise_state] for s, w in live.items())
 
@@ -281,6 +370,7 @@ class Case:
                 self.screen.start(alternate_buffer=alt)
                 if self.inline != (not alt):
                     self.last_canvas = None   # rendered for the other mode (with / without the cursor)
+                    self.kept.clear()
                 self.inline = not alt
             elif op == "pre":
                 if self.screen._started:
@@ -290,7 +380,7 @@ class Case:
                 if self.screen._started:
                     raise ValueError("new screen object while the old one is started")
                 self.take_output()
-                self.screen = UrwidImageScreen(sys.__stdin__, self.buf)
+                self.screen = new_screen(self.buf)
                 self.last_canvas = None
             elif op == "stop":
                 self.screen.stop()
@@ -322,9 +412,25 @@ class Case:
                 else:
                     self.screen.clear_images(*ws, now=bool(st.get("now")))
                 del ws
+            elif op == "winch":
+                if not self.screen._started or signal.getsignal(signal.SIGWINCH) != self.screen._sigwinch_handler:
+                    raise ValueError("SIGWINCH while the screen's handler is not installed")
+                signal.raise_signal(signal.SIGWINCH)
+            elif op == "resize":
+                if not self.screen._started:
+                    raise ValueError("resize handled while the screen is stopped")
+                # what urwid.MainLoop does on input: only when a resize is pending (otherwise no input
+                # is available and there is nothing to handle)
+                res["keys"] = self.screen.get_input() if self.screen._resized else []
             elif op in ("draw", "draw_bad", "redraw"):
+                how = st.get("how", "size") if op == "draw_bad" else None
                 if op == "redraw":
-                    canv = self.last_canvas
+                    if st.get("use") is not None:
+                        canv, inl = self.kept.get(st["use"], (None, None))
+                        if canv is None or inl != self.inline:
+                            raise ValueError("redraw of a canvas that was not kept in this mode")
+                    else:
+                        canv = self.last_canvas
                     if canv is None:
                         raise ValueError("redraw without a canvas drawn in this mode")
                 else:
@@ -333,13 +439,32 @@ class Case:
                         widget = WithCursor(widget)
                     canv = widget.render(self.size)
                     del widget
+                    if how is not None and how != "size" and how[0] == "content":
+                        canv = RaisingCanvas(canv)
+                        if self.inline:
+                            canv.cursor = (0, 0)
+                    if st.get("save") is not None:
+                        self.kept[st["save"]] = (canv, self.inline)
                 self.last_canvas = canv
+                self.whole_trimmed = False
                 res["layout"] = self.layout_of(canv)
-                size = self.size if op != "draw_bad" else (self.size[0], self.size[1] + 1)
+                if self.whole_trimmed:
+                    res["whole_trimmed"] = True
+                size = self.size if how != "size" else (self.size[0], self.size[1] + 1)
+                if how is not None and how != "size":
+                    if how[0] == "content":
+                        canv._verif_fail_row = int(how[1])
+                    else:
+                        self.buf.arm = int(how[1])
                 try:
                     self.screen.draw_screen(size, canv)
                 except Exception as e:
                     res["exc"] = type(e).__name__ + ": " + str(e)[:120]
+                self.buf.fail_at = self.buf.arm = None
+                if isinstance(canv, RaisingCanvas):
+                    canv._verif_fail_row = None
+                # urwid's own record: this canvas is the one its screen buffer holds
+                res["reached"] = self.screen.screen_buf is not None and self.screen._screen_buf_canvas is canv
                 # ground truth: the rows of the canvas just drawn
                 rows = []
                 for row in canv.content():
@@ -378,6 +503,7 @@ class Case:
                 pass
             self.slots.clear()
             self.last_canvas = None
+            self.kept.clear()
             self.canv_ids.clear()
             self.screen = None
             self.classes = [UrwidImage]
@@ -387,6 +513,9 @@ class Case:
 
 
 def main():
+    # everything imported so far lives for the whole run: keep it out of the collections made at every step
+    gc.collect()
+    gc.freeze()
     results = []
     for case in implenv.read_cases():
         try:
